@@ -32,15 +32,22 @@ import (
 	"time"
 )
 
-const (
-	repoDir  = "/repo"
-	verifDir = "/verif"
-)
+const repoDir = "/repo"
+
+// verifDir is where MANIFEST.json, sim/, evidence/ and replays/ live (the directory of the
+// `check` script; /verif unless the script is run from a snapshot).
+var verifDir = func() string {
+	if d := os.Getenv("VERIF_DIR"); d != "" {
+		return d
+	}
+	return "/verif"
+}()
 
 type tierCfg struct {
 	name          string
 	corrupt       int
 	churn         int
+	large         int
 	serialSeconds float64
 	serialProcs   int
 	selfRuns      int
@@ -55,9 +62,9 @@ type tierCfg struct {
 }
 
 var tiers = map[string]tierCfg{
-	"quick": {name: "quick", corrupt: 300, churn: 1200, serialSeconds: 20, serialProcs: 16, selfRuns: 200, pairsM: 64, firstPer: 3, preemptPairs: 96, preemptCap: 300,
-		burstSeconds: 12, burstMin: 1500, burstProcs: 6, hardCap: 15 * time.Minute},
-	"thorough": {name: "thorough", corrupt: 1500, churn: 6000, serialSeconds: 720, serialProcs: 16, selfRuns: 5000, pairsM: 420, firstPer: 12, preemptPairs: 3000, preemptCap: 2000,
+	"quick": {name: "quick", corrupt: 300, churn: 1200, large: 18, serialSeconds: 20, serialProcs: 16, selfRuns: 200, pairsM: 64, firstPer: 3, preemptPairs: 96, preemptCap: 300,
+		burstSeconds: 12, burstMin: 1200, burstProcs: 6, hardCap: 15 * time.Minute},
+	"thorough": {name: "thorough", corrupt: 1500, churn: 6000, large: 32, serialSeconds: 720, serialProcs: 16, selfRuns: 5000, pairsM: 420, firstPer: 12, preemptPairs: 3000, preemptCap: 2000,
 		burstSeconds: 240, burstMin: 30000, burstProcs: 6, hardCap: 90 * time.Minute},
 }
 
@@ -68,6 +75,7 @@ var (
 )
 
 func cleanup() {
+	killLive()
 	cmu.Lock()
 	defer cmu.Unlock()
 	for _, f := range cleanups {
@@ -350,9 +358,28 @@ type proc struct {
 	exit    int
 	timeout time.Duration
 	killed  bool
+	wall    time.Duration
+}
+
+var (
+	liveMu sync.Mutex
+	live   = map[*exec.Cmd]bool{}
+)
+
+// killLive kills every child process that is still running (no orphans on any exit path).
+func killLive() {
+	liveMu.Lock()
+	defer liveMu.Unlock()
+	for c := range live {
+		if c.Process != nil {
+			c.Process.Kill()
+		}
+	}
 }
 
 func (p *proc) run() {
+	t0 := time.Now()
+	defer func() { p.wall = time.Since(t0) }()
 	cmd := exec.Command(p.bin, p.args...)
 	cmd.Env = append(goEnv(), p.env...)
 	cmd.Stderr = &p.stderr
@@ -362,6 +389,14 @@ func (p *proc) run() {
 		p.exit = -1
 		return
 	}
+	liveMu.Lock()
+	live[cmd] = true
+	liveMu.Unlock()
+	defer func() {
+		liveMu.Lock()
+		delete(live, cmd)
+		liveMu.Unlock()
+	}()
 	done := make(chan error, 1)
 	go func() { done <- cmd.Wait() }()
 	select {
@@ -375,6 +410,19 @@ func (p *proc) run() {
 	if cmd.ProcessState != nil {
 		p.exit = cmd.ProcessState.ExitCode()
 	}
+}
+
+func slowest(ps []*proc) string {
+	var best *proc
+	for _, p := range ps {
+		if best == nil || p.wall > best.wall {
+			best = p
+		}
+	}
+	if best == nil {
+		return ""
+	}
+	return fmt.Sprintf("%s %.1fs", best.name, best.wall.Seconds())
 }
 
 func runAll(ps []*proc, parallel int) {
@@ -560,7 +608,7 @@ func doCheck(cfg tierCfg) int {
 	if left, _ := b.instr["sync_left_real"].([]any); len(left) > 0 {
 		fmt.Printf("note: files using sync primitives the simulator does not model keep the real package: %v\n", left)
 	}
-	common := []string{"-root", b.rootSerial, "-seed", fmt.Sprint(seed), "-corrupt", fmt.Sprint(cfg.corrupt), "-churn", fmt.Sprint(cfg.churn)}
+	common := []string{"-root", b.rootSerial, "-seed", fmt.Sprint(seed), "-corrupt", fmt.Sprint(cfg.corrupt), "-churn", fmt.Sprint(cfg.churn), "-large", fmt.Sprint(cfg.large)}
 	ncpu := runtime.NumCPU()
 	if ncpu > 16 {
 		ncpu = 16
@@ -620,6 +668,7 @@ func doCheck(cfg tierCfg) int {
 	}
 	collect(mst)
 	table := mergeOut + ".table"
+	fmt.Printf("[t=%.0fs] ", time.Since(start).Seconds())
 	fmt.Printf("reference table: %d operations over %d inputs, hash %s, computed twice in 21 fresh processes (forward and reverse order)\n",
 		mst.PoolOps, mst.PoolInputs, mst.RefTableHash)
 
@@ -659,6 +708,11 @@ func doCheck(cfg tierCfg) int {
 			env:  []string{"GOMAXPROCS=" + g, "GOMEMLIMIT=3GiB"}})
 	}
 	runAll(ps, ncpu+3)
+	if os.Getenv("VERIF_VERBOSE") != "" {
+		for _, p := range ps {
+			fmt.Printf("  %s %.1fs\n", p.name, p.wall.Seconds())
+		}
+	}
 	serialRuns := int64(0)
 	for _, p := range ps {
 		if !checkProc(p) {
@@ -676,6 +730,7 @@ func doCheck(cfg tierCfg) int {
 			samples = append(samples, s.Samples...)
 		}
 	}
+	fmt.Printf("[t=%.0fs] ", time.Since(start).Seconds())
 	fmt.Printf("serial mode: %d seeded runs, %d operations, %d yields, %d context switches, %d runs with overlapping calls\n",
 		tot.Runs, tot.Ops, tot.Steps, tot.Switches, tot.Overlapped)
 
@@ -722,6 +777,9 @@ func doCheck(cfg tierCfg) int {
 			env:  []string{"GOMAXPROCS=1", "GOMEMLIMIT=3GiB"}})
 	}
 	runAll(ps, ncpu)
+	if os.Getenv("VERIF_VERBOSE") != "" {
+		fmt.Println("slowest sweep process:", slowest(ps))
+	}
 	sweep := newTotal()
 	for _, p := range ps {
 		if !checkProc(p) {
@@ -736,6 +794,7 @@ func doCheck(cfg tierCfg) int {
 		sweep.add(s)
 		collect(s)
 	}
+	fmt.Printf("[t=%.0fs] ", time.Since(start).Seconds())
 	fmt.Printf("sweeps: %d ordered-pair chains (%d sampled operations: every ordered pair), %d single-preemption schedules, %d first-call chains (one fresh process each)\n",
 		sweep.Strategies["ordered-pair-sweep"], cfg.pairsM, sweep.Strategies["single-preemption-sweep"], sweep.Strategies["first-call-sweep"])
 
@@ -770,7 +829,7 @@ func doCheck(cfg tierCfg) int {
 				out := filepath.Join(scratch, fmt.Sprintf("burst-%d-%d.json", i, restarts))
 				p := &proc{name: fmt.Sprintf("burst-%d", i), bin: b.raceBin, outFile: out, timeout: time.Duration(left*8+120) * time.Second,
 					args: append([]string{"-mode", "burst", "-w", fmt.Sprint(i), "-of", fmt.Sprint(cfg.burstProcs), "-from", fmt.Sprint(from), "-seconds", fmt.Sprint(left), "-minruns", fmt.Sprint(minLeft), "-refs", table, "-out", out},
-						"-root", b.rootRace, "-seed", fmt.Sprint(seed), "-corrupt", fmt.Sprint(cfg.corrupt), "-churn", fmt.Sprint(cfg.churn)),
+						"-root", b.rootRace, "-seed", fmt.Sprint(seed), "-corrupt", fmt.Sprint(cfg.corrupt), "-churn", fmt.Sprint(cfg.churn), "-large", fmt.Sprint(cfg.large)),
 					env: []string{"GOMAXPROCS=" + bgmp[i%len(bgmp)], "GORACE=halt_on_error=1 exitcode=66 history_size=4", "GOMEMLIMIT=6GiB"}}
 				p.run()
 				bmu.Lock()
@@ -801,6 +860,7 @@ func doCheck(cfg tierCfg) int {
 		}(i)
 	}
 	bwg.Wait()
+	fmt.Printf("[t=%.0fs] ", time.Since(start).Seconds())
 	fmt.Printf("burst mode (-race): %d bursts, %d operations on real threads, GOMAXPROCS 2/4/8/16; race reports: %d\n", burst.Runs, burst.Ops, len(raceReports))
 
 	// -- violations ---------------------------------------------------------------------------------------------------
@@ -917,7 +977,7 @@ func doCheck(cfg tierCfg) int {
 					m["gomaxprocs"] = g
 				}
 				m["expect"] = failure{Oracle: strings.SplitN(rr.identity, "|", 2)[0], Key: rr.identity, Detail: rr.kind}
-				m["seeded_prefix"] = map[string]any{"seed": seed, "first": rr.worker, "stride": cfg.burstProcs, "last": rr.burst, "corrupt": cfg.corrupt, "churn": cfg.churn}
+				m["seeded_prefix"] = map[string]any{"seed": seed, "first": rr.worker, "stride": cfg.burstProcs, "last": rr.burst, "corrupt": cfg.corrupt, "churn": cfg.churn, "large": cfg.large}
 				raw, _ = json.MarshalIndent(m, "", " ")
 			}
 		}
